@@ -8,6 +8,14 @@ import Holpy.C15.Proofs.NoCrash
 import Holpy.C15.Proofs.TraceInv
 import Holpy.C15.Proofs.Fuel
 import Holpy.C15.Proofs.Terminate
+import Holpy.C15.Proofs.ListLemmas
+import Holpy.C15.Proofs.TrailOrd
+import Holpy.C15.Proofs.AnalyzeTerm
+import Holpy.C15.Proofs.TermBase
+import Holpy.C15.Proofs.Backjump
+import Holpy.C15.Proofs.Rank
+import Holpy.C15.Proofs.MainTerm
+import Holpy.C15.Proofs.ReplayComplete
 import Holpy.C15.Proofs.MainLoop
 import Holpy.C15.Proofs.Solver
 import Holpy.C15.Proofs.Tseitin
